@@ -50,6 +50,14 @@ impl Frac {
     }
 }
 
+#[cfg(feature = "verif-hooks")]
+impl Frac {
+    /// Number of whole codewords (rounded down).
+    pub(crate) fn whole(self) -> C {
+        self.0 / DENUM
+    }
+}
+
 impl From<C> for Frac {
     fn from(c: C) -> Frac {
         Frac::new(c, 1)
